@@ -1,15 +1,33 @@
-"""C05  Observers are transparent and capture the complete stream at their position.  (work in progress: dumpers below)"""
-from contracts.common import Item
-from contracts import streams as S
+"""C05  Observers are transparent and capture the complete stream at their position.
 
-TRUSTED = ['T1 pyvc model of Python (DESIGN 3)', 'T16 z3 / cvc5']
-ASSUMPTIONS = []
+Each observer's row path is proved to re-yield the very same row object, untouched, one row at a time, and to persist /
+count / print the row as it ENTERED (before the yield: a later step that edits the row in place cannot leak into what was
+persisted); completion actions (close + rename, copy out + descriptor, callback, table) happen only after exhaustion.
+Steps that discard resources drain them (delete_resource, join source index, driver), so an upstream observer sees the full
+stream even when later steps delete / merge / filter.
+"""
+from contracts.common import Item
+from contracts import streams as S, dumpers as DM, base as BA, natives as N
+from contracts import C10 as K10
+
+TRUSTED = ['T1 pyvc model of Python (DESIGN 3)', 'T5 cast of a native value of the declared type returns it unchanged (dumpers, '
+           'validate)', 'T16 z3 / cvc5']
+ASSUMPTIONS = ['consumers drain resource streams in order (rely P-seq); discharged for the driver safe_process here',
+               'header_print / table_print / callback user callables do not touch the rows']
 
 ITEMS = [
     Item('printer.func', S.sym_printer, [], 'dataflows/processors/printer.py::printer.func'),
+    Item('printer.unselected', lambda vc: K10.sym_printer(vc, kinds=('list', 'str')), [], 'dataflows/processors/printer.py::printer.func'),
     Item('finalizer', S.sym_finalizer, [], 'dataflows/processors/finalizer.py::finalizer.get_iterator.func'),
     Item('DataStreamProcessor.defaults', S.sym_dsp_base, [], 'dataflows/base/datastream_processor.py::DataStreamProcessor.process_resource'),
     Item('stream.res_writer', S.sym_res_writer, [], 'dataflows/processors/stream.py::stream.res_writer'),
     Item('stream.func', S.sym_stream_func, [], 'dataflows/processors/stream.py::stream.func'),
     Item('checkpoint.notify', S.sym_notify, [], 'dataflows/processors/checkpoint.py::_notify_checkpoint_saved.step'),
+    Item('DumperBase.process_resources', DM.sym_process_resources, [], DM.D + 'dumper_base.py::DumperBase.process_resources'),
+    Item('DumperBase.row_counter', DM.sym_row_counter, [], DM.D + 'dumper_base.py::DumperBase.row_counter'),
+    Item('FileDumper.rows_processor', DM.sym_rows_processor, [], DM.D + 'file_dumper.py::FileDumper.rows_processor'),
+    Item('driver.safe_process', BA.sym_safe_process, [], 'dataflows/base/datastream_processor.py::DataStreamProcessor.safe_process'),
+    Item('delete_resource.drains', K10.sym_delete_resource, [], 'dataflows/processors/delete_resource.py::delete_resource.func'),
+    Item('validate', K10.sym_validate, [], 'dataflows/processors/validate.py::validate.process_resource'),
+    Item('pipelines', None, [('observer-transparency', N.nat_observers)], None),
 ]
